@@ -818,8 +818,25 @@ func (s DB) Diff(
 	f func(key, myValue, fromValue interface{}) (keepGoing bool, err error),
 ) error {
 	var fromMast *mast.Mast = nil
-	if from != nil {
+	// A tree whose entries were all removed in memory keeps an empty root node,
+	// which the tree diff cannot walk ("don't know how to compare string with
+	// <nil>"): treat an empty tree as no tree.
+	if from != nil && from.Size() > 0 {
 		fromMast = from.crdt.Mast
+	}
+	if s.Size() == 0 {
+		if fromMast == nil {
+			return nil
+		}
+		// everything visible in 'from' is gone
+		return fromMast.DiffIter(ctx, nil,
+			func(added, removed bool, key, addedValue, removedValue interface{}) (bool, error) {
+				fromValue := innerValue(addedValue)
+				if fromValue == nil {
+					return true, nil
+				}
+				return f(key, nil, fromValue)
+			})
 	}
 	err := s.crdt.Mast.DiffIter(ctx, fromMast,
 		func(added, removed bool,
